@@ -1,7 +1,7 @@
 """C16 - an I/O error stops the writer cleanly and never corrupts the database (error discipline core)."""
 import re
 import core, lib, errdisc
-from props import shared
+from props import shared, C02
 from core import call_matches, call_names, op_place, backward_slice
 
 CFG_ONLY = ['9s enact-failure-recorded db::Db::enact_logs']      # the stepping API exists only with the `instrumentation` feature
@@ -52,6 +52,7 @@ def run(ctx):
     # reads keep returning committed data after a failed write: overlay entries leave only after the record was published successfully
     shared.handover_order(ctx, '7')
     shared.metadata_replaced_atomically(ctx, '8')
+    C02.absent_only_if_not_found(ctx, '10')    # a table file left between create and a failed set_len is completed at the next open (an I/O error does not make the database unopenable)
     n = prop = stored = unw = local = 0
     local_counts = {}
     for b, bi, t in errdisc.fallible_sites(F):
